@@ -7,6 +7,8 @@ INVARIANT Inv_C02_local
 INVARIANT Inv_C03
 INVARIANT Inv_C04
 INVARIANT Inv_C12
+INVARIANT Inv_C11
+INVARIANT Inv_C11_once
 INVARIANT Inv_Value
 INVARIANT Inv_C15
 INVARIANT Inv_OkIffNoFaults
